@@ -530,3 +530,156 @@ Example C11_ex_main_guard :
   spec_final [mkBeh 1 (RRes 50 false) false false (UNew 60 true)] [(1, MRaw 41 true)] [] true = false /\
   guard [mkBeh 1 (RJunk 50 true) false false (UNew 60 true)] [(1, MRaw 41 true)] = false.
 Proof. repeat split; vm_compute; reflexivity. Qed.
+
+(* ---------- fifth pass: the results file and the records of a reusing run (ModelTop.v / ProofsTop.v) ---------- *)
+From ASV.C11 Require Import ModelTop ProofsTop.
+From Coq Require Import Sorting.Permutation.
+
+(* AntismashResults.from_file: an accepted results file has the current top-level schema or one listed as compatible
+   with it (numerically: 4.0 and True count as 4 and 1, as Python's == and set membership do); a missing field is 1 *)
+Theorem C11_top_accepted_schema : forall cur compat data ms,
+  top_from_file cur compat data = Ok ms ->
+  exists kv, data = JObj kv /\ schema_listed cur compat (top_schema kv) = true.
+Proof. exact top_accepted_schema. Qed.
+Print Assumptions C11_top_accepted_schema.
+
+(* ... and a file of any other integer schema - older or NEWER - is refused with ValueError before anything is read *)
+Theorem C11_top_refuses_unlisted : forall cur compat kv s,
+  top_schema kv = JInt s -> s <> cur -> ~ In s compat ->
+  top_from_file cur compat (JObj kv) = Err E_Value.
+Proof. exact top_refuses_unlisted. Qed.
+Print Assumptions C11_top_refuses_unlisted.
+
+(* in particular every schema above the current one, as long as the compatibility table only lists older ones
+   (antismash/common/test/test_serialiser.py test_schema_updated) *)
+Theorem C11_top_newer_refused : forall cur compat kv s,
+  top_schema kv = JInt s -> cur < s -> (forall c, In c compat -> c <= cur) ->
+  top_from_file cur compat (JObj kv) = Err E_Value.
+Proof. exact top_newer_refused. Qed.
+Print Assumptions C11_top_newer_refused.
+
+Theorem C11_top_missing_schema_is_1 : forall kv, jfind K_schema kv = None -> top_schema kv = JInt 1.
+Proof. exact top_missing_schema. Qed.
+Print Assumptions C11_top_missing_schema_is_1.
+
+(* the run-time specification of the reader (fn 30) holds of the model on every input *)
+Theorem C11_top_model_meets_spec : forall cur compat data,
+  spec_top cur compat data (top_outcome (top_from_file cur compat data)) = true.
+Proof. exact top_model_meets_spec. Qed.
+Print Assumptions C11_top_model_meets_spec.
+
+Example C11_ex_top :
+  let file s := JObj [(K_version, JStr []); (K_input_file, JStr []); (K_records, JArr []); (K_schema, s)] in
+  top_from_file 4 [3; 2; 1] (file (JInt 4)) = Ok [] /\
+  top_from_file 4 [3; 2; 1] (file (JInt 2)) = Ok [] /\
+  top_from_file 4 [3; 2; 1] (file (JInt 5)) = Err E_Value /\
+  top_from_file 4 [3; 2; 1] (file (JInt 0)) = Err E_Value /\
+  top_from_file 4 [3; 2; 1] (file (JStr [52])) = Err E_Value /\
+  top_from_file 4 [3; 2; 1] (file (JArr [])) = Err E_Type /\
+  top_from_file 4 [3; 2; 1] (file (JFlt 4 1)) = Ok [] /\
+  top_from_file 4 [3; 2; 1] (JObj [(K_version, JStr []); (K_input_file, JStr []); (K_records, JArr [])]) = Ok [] /\
+  (* what seed7 lets through is rejected by the specification *)
+  spec_top 4 [3; 2; 1] (file (JInt 5)) None = false /\ spec_top 4 [3; 2; 1] (file (JInt 5)) (Some E_Value) = true.
+Proof. repeat split; vm_compute; reflexivity. Qed.
+
+(* main.read_data: stripping the record saved by a run gives back the input record, when the input carries nothing
+   the strip removes and everything the detection stages added is of a kind the strip removes *)
+Theorem C11_reuse_strip_restores_input : forall base c saved,
+  reuse_guard base c = true -> detect_record base c = Ok saved -> strip saved = base.
+Proof. exact strip_restores_input. Qed.
+Print Assumptions C11_reuse_strip_restores_input.
+
+(* reuse after the strip: regenerating the saved results against the stripped record succeeds and leaves exactly
+   the first run's annotated record (same features, same order), for every record, contribution lists and stage *)
+Theorem C11_reuse_after_strip_same_features : forall base c saved final,
+  reuse_guard base c = true -> first_run base c = Ok (saved, final) ->
+  strip saved = base /\ reuse_run saved c = Ok final.
+Proof. exact reuse_after_strip. Qed.
+Print Assumptions C11_reuse_after_strip_same_features.
+
+(* WITHOUT the strip: any record carrying a saved whole-genome (or area-formation) annotation of a named kind
+   (PFAM_domain, aSDomain, CDS_motif) cannot be regenerated: its own name collides *)
+Theorem C11_reuse_without_strip_collides : forall base c saved f,
+  detect_record base c = Ok saved -> In f (c_early c) -> is_domain (f_kind f) = true ->
+  reuse_with no_strip saved c = Err E_SecmetInvalid.
+Proof. exact reuse_without_strip_collides. Qed.
+Print Assumptions C11_reuse_without_strip_collides.
+
+(* ... and stripping only the records that have regions is not enough: a region-less record with such an annotation dies *)
+Theorem C11_reuse_strip_only_with_regions_collides : forall base c saved f,
+  detect_record base c = Ok saved -> has_region saved = false ->
+  In f (c_early c) -> is_domain (f_kind f) = true ->
+  reuse_with strip_if_regions saved c = Err E_SecmetInvalid.
+Proof. exact reuse_strip_if_regions_collides. Qed.
+Print Assumptions C11_reuse_strip_only_with_regions_collides.
+
+(* the multiset comparison used at run time decides Permutation *)
+Theorem C11_same_multiset_sound : forall a b, same_multiset a b = true <-> Permutation a b.
+Proof. exact same_multiset_sound. Qed.
+Print Assumptions C11_same_multiset_sound.
+
+(* the run-time specification of the reuse path (fn 31) holds of the model under its guard, and whatever outcome
+   meets it carries, feature for feature, the annotations of the first run *)
+Theorem C11_reuse_model_meets_spec : forall base c,
+  reuse_guard base c = true -> spec_reuse base c (reuse_outcome (reuse_pipeline base c)) = true.
+Proof. exact reuse_model_meets_spec. Qed.
+Print Assumptions C11_reuse_model_meets_spec.
+
+Theorem C11_reuse_spec_sound : forall base c saved final l,
+  first_run base c = Ok (saved, final) -> spec_reuse base c (Ok l) = true -> Permutation l (ids final).
+Proof. exact spec_reuse_sound. Qed.
+Print Assumptions C11_reuse_spec_sound.
+
+Example C11_ex_reuse :
+  let cds := mkFeat 0 0 0 false in
+  let pfam := mkFeat 1 6 100 true in
+  let sub := mkFeat 2 3 2 true in
+  let region := mkFeat 3 4 3 true in
+  let cpfam := mkFeat 4 6 101 true in
+  let tta := mkFeat 5 0 5 true in
+  let with_region := mkContribs [pfam; sub] [region] [cpfam] [tta] in
+  let no_region := mkContribs [pfam] [] [cpfam] [tta] in
+  reuse_guard [cds] with_region = true /\ reuse_guard [cds] no_region = true /\
+  first_run [cds] with_region = Ok ([cds; pfam; sub; region; cpfam], [cds; pfam; sub; region; cpfam; tta]) /\
+  reuse_run [cds; pfam; sub; region; cpfam] with_region = Ok [cds; pfam; sub; region; cpfam; tta] /\
+  (* a record without regions: the whole-genome PFAM domain is saved, the per-area and analysis stages are skipped *)
+  first_run [cds] no_region = Ok ([cds; pfam], [cds; pfam]) /\
+  reuse_run [cds; pfam] no_region = Ok [cds; pfam] /\
+  reuse_with no_strip [cds; pfam] no_region = Err E_SecmetInvalid /\
+  (* seed8's treatment: fine with regions, dies without *)
+  reuse_with strip_if_regions [cds; pfam; sub; region; cpfam] with_region = Ok [cds; pfam; sub; region; cpfam; tta] /\
+  reuse_with strip_if_regions [cds; pfam] no_region = Err E_SecmetInvalid /\
+  spec_reuse [cds] no_region (Err E_SecmetInvalid) = false /\ spec_reuse [cds] no_region (Ok [1; 0]) = true /\
+  spec_reuse [cds] no_region (Ok [0; 1; 1]) = false.
+Proof. repeat split; vm_compute; reflexivity. Qed.
+
+(* Record.strip_antismash_annotations: nothing of a kind it clears survives ... *)
+Theorem C11_strip_leaves_nothing_stripped : forall r f, In f (strip r) -> stripped f = false.
+Proof. exact strip_leaves_nothing_stripped. Qed.
+Print Assumptions C11_strip_leaves_nothing_stripped.
+
+(* ... so fresh copies of the cleared annotations (pairwise distinct names, none carried by a survivor such as a CDS motif of
+   the input file) can all be added again, and the record then holds exactly the survivors and the copies *)
+Theorem C11_strip_then_readd : forall r r0 adds,
+  add_all [] r = Ok r0 -> readd_ok r0 adds = true -> strip_and_add r adds = Ok (strip r0 ++ adds).
+Proof. exact readd_after_strip. Qed.
+Print Assumptions C11_strip_then_readd.
+
+(* the run-time specification of the strip family (fn 32) holds of the model on every input *)
+Theorem C11_strip_model_meets_spec : forall r adds, spec_strip r adds (strip_outcome (strip_and_add r adds)) = true.
+Proof. exact strip_model_meets_spec. Qed.
+Print Assumptions C11_strip_model_meets_spec.
+
+Example C11_ex_strip :
+  let pfam := mkFeat 1 6 100 true in
+  let motif_in := mkFeat 2 8 101 false in       (* a CDS motif of the input file: survives, keeps its name *)
+  let motif_as := mkFeat 3 8 102 true in
+  let pfam' := mkFeat 4 6 100 true in
+  let motif_as' := mkFeat 5 8 102 true in
+  readd_ok [pfam; motif_in; motif_as] [pfam'; motif_as'] = true /\
+  strip_and_add [pfam; motif_in; motif_as] [pfam'; motif_as'] = Ok [motif_in; pfam'; motif_as'] /\
+  strip_and_add [pfam; motif_in; motif_as] [mkFeat 6 6 101 true] = Err E_SecmetInvalid /\
+  (* a strip that keeps antiSMASH-made motifs makes the re-add die: rejected *)
+  spec_strip [pfam; motif_in; motif_as] [pfam'; motif_as'] (Err E_SecmetInvalid) = false /\
+  spec_strip [pfam; motif_in; motif_as] [pfam'; motif_as'] (Ok [5; 4; 2]) = true.
+Proof. repeat split; vm_compute; reflexivity. Qed.
